@@ -65,6 +65,37 @@ fn remove_present_atoms(envlist: &mut HashMap<Vec<u8>, Vec<u8>>, args: Rc<SExp>)
     }
 }
 
+// The serialized form of a lambda shows the names its captures are bound to
+// but not the expression that supplies them, which is where the program's
+// parameters appear when a lambda is part of the result.
+fn remove_atoms_present_in_lambda_captures(
+    envlist: &mut HashMap<Vec<u8>, Vec<u8>>,
+    body: &BodyForm,
+) {
+    match body {
+        BodyForm::Let(_, letdata) => {
+            for b in letdata.bindings.iter() {
+                remove_atoms_present_in_lambda_captures(envlist, b.body.borrow());
+            }
+            remove_atoms_present_in_lambda_captures(envlist, letdata.body.borrow());
+        }
+        BodyForm::Call(_, args, tail) => {
+            for a in args.iter() {
+                remove_atoms_present_in_lambda_captures(envlist, a.borrow());
+            }
+            if let Some(t) = tail {
+                remove_atoms_present_in_lambda_captures(envlist, t.borrow());
+            }
+        }
+        BodyForm::Lambda(ldata) => {
+            remove_present_atoms(envlist, ldata.captures.to_sexp());
+            remove_atoms_present_in_lambda_captures(envlist, ldata.captures.borrow());
+            remove_atoms_present_in_lambda_captures(envlist, ldata.body.borrow());
+        }
+        BodyForm::Quoted(_) | BodyForm::Value(_) | BodyForm::Mod(_, _) => {}
+    }
+}
+
 /// Given a CompilerOpts and a compiled program CompileForm, produce the set of
 /// eligible parameters to the program which, after expanding the complete program
 /// into a single expression, do not contribute to the program's output along any
@@ -106,6 +137,7 @@ pub fn check_parameters_used_compileform(
     )?;
 
     remove_present_atoms(&mut replacement_to_original, result.to_sexp());
+    remove_atoms_present_in_lambda_captures(&mut replacement_to_original, result.borrow());
 
     let mut result_set = HashSet::new();
     for kv in replacement_to_original.iter() {
